@@ -132,6 +132,7 @@ type Arena struct {
 	Slots []*Object
 	Fn    string   // only Alloc sites in functions whose name contains this allocate here
 	Next  *term.T  // allocation counter (state variable)
+	Pooled []*term.T // per slot: sits in a sync.Pool (only with job parameter pool=1, for pointer-free reuse modelling)
 }
 
 type Unsupported struct{ Msg string }
